@@ -54,7 +54,7 @@ func scenariosOf(kind, code string) []pubScenario {
 // docScenarios lists the published invoice scenarios of the document's regime and addons.
 func docScenarios(doc *JV) []pubScenario {
 	var out []pubScenario
-	if r := doc.Get("$regime").Str(); r != "" {
+	if r := docRegime(doc); r != "" {
 		out = append(out, scenariosOf("regimes", r)...)
 	}
 	if al := doc.Get("$addons"); al != nil && al.K == 'a' {
@@ -222,5 +222,191 @@ func applyTransplant(doc *JV, i, j, k int64) bool {
 		return false
 	}
 	n.V.Set(key, val)
+	return true
+}
+
+// ---------------------------------------------------------------------------
+// payment means keys: the ones the schema lists plus those a regime publishes
+
+var (
+	payKeyMu    sync.Mutex
+	payKeyCache = map[string][]string{}
+)
+
+func payMeansKeys(regime string) []string {
+	payKeyMu.Lock()
+	defer payKeyMu.Unlock()
+	if k, ok := payKeyCache[regime]; ok {
+		return k
+	}
+	var out []string
+	var sch struct {
+		Defs map[string]struct {
+			Properties map[string]struct {
+				AnyOf []struct {
+					Const string `json:"const"`
+				} `json:"anyOf"`
+			} `json:"properties"`
+		} `json:"$defs"`
+	}
+	if b, err := os.ReadFile(filepath.Join(pubRepo, "data/schemas/pay/instructions.json")); err == nil && json.Unmarshal(b, &sch) == nil {
+		for _, c := range sch.Defs["Instructions"].Properties["key"].AnyOf {
+			if c.Const != "" {
+				out = append(out, c.Const)
+			}
+		}
+	}
+	var reg struct {
+		Keys []struct {
+			Key string `json:"key"`
+		} `json:"payment_means_keys"`
+	}
+	if b, err := os.ReadFile(filepath.Join(pubRepo, "data/regimes", strings.ToLower(regime)+".json")); err == nil && json.Unmarshal(b, &reg) == nil {
+		for _, k := range reg.Keys {
+			out = append(out, k.Key)
+		}
+	}
+	payKeyCache[regime] = out
+	payRegKeys[regime] = len(reg.Keys)
+	return out
+}
+
+// payRegKeys: how many of a regime's keys (the last ones in payMeansKeys) are its own.
+var payRegKeys = map[string]int{}
+
+// applyPayKeys gives the document payment instructions (and its advances, if any) with one of
+// the payment means keys defined for it.
+// docRegime: the regime a document is calculated under, also before a first calculation wrote it down.
+func docRegime(doc *JV) string {
+	r := doc.Get("$regime").Str()
+	if r == "" {
+		if s := doc.Get("supplier"); s != nil && s.Get("tax_id") != nil {
+			r = s.Get("tax_id").Get("country").Str()
+		}
+	}
+	if r == "EL" {
+		r = "GR" // the Greek regime is published as gr.json
+	}
+	return r
+}
+
+func applyPayKeys(doc *JV, i, j int64) bool {
+	if doc.Get("lines") == nil {
+		return false
+	}
+	keys := payMeansKeys(docRegime(doc))
+	if len(keys) == 0 {
+		return false
+	}
+	pay := doc.Get("payment")
+	if pay == nil || pay.K != 'o' {
+		pay = &JV{K: 'o'}
+		doc.Set("payment", pay)
+	}
+	ins := pay.Get("instructions")
+	if ins == nil || ins.K != 'o' {
+		ins = &JV{K: 'o'}
+		pay.Set("instructions", ins)
+	}
+	k := keys[int(i)%len(keys)]
+	if n := payRegKeys[docRegime(doc)]; n > 0 && i%2 == 0 {
+		// the keys the regime itself publishes are the ones its code looks at
+		k = keys[len(keys)-n+int(i/2)%n]
+	}
+	changed := ins.Get("key").Str() != k
+	ins.Set("key", JStr(k))
+	if adv := pay.Get("advances"); adv != nil && adv.K == 'a' {
+		for n, a := range adv.A {
+			if a != nil && a.K == 'o' {
+				a.Set("key", JStr(keys[(int(j)+n)%len(keys)]))
+				changed = true
+			}
+		}
+	}
+	return changed
+}
+
+// ---------------------------------------------------------------------------
+// grafts: array elements other documents carry at the same place
+
+var (
+	graftMu  sync.Mutex
+	graftCat map[string][]string
+)
+
+func graftCatalog() map[string][]string {
+	graftMu.Lock()
+	defer graftMu.Unlock()
+	if graftCat != nil || theCorpus == nil {
+		return graftCat
+	}
+	m := map[string][]string{}
+	for _, d := range theCorpus.Valid {
+		doc := c04sourceDoc(d)
+		if doc == nil || doc.K != 'o' {
+			continue
+		}
+		for _, n := range Walk(doc, "") {
+			if n.V.K != 'a' || len(n.V.A) == 0 {
+				continue
+			}
+			g := typedPtr(doc, n.Ptr)
+			for _, e := range n.V.A {
+				if e == nil || e.K != 'o' {
+					continue
+				}
+				c := e.Clone()
+				c.Del("uuid")
+				c.Del("i")
+				val := string(c.Encode(nil))
+				have := false
+				for _, x := range m[g] {
+					if x == val {
+						have = true
+					}
+				}
+				if !have && len(m[g]) < 6 && len(val) < 4096 {
+					m[g] = append(m[g], val)
+				}
+			}
+		}
+	}
+	graftCat = m
+	return m
+}
+
+// applyGraft appends to one list of the document an entry that other source documents carry
+// in the list at the same place (a second tax rate row, another line, another note ...).
+func applyGraft(doc *JV, i, j int64) bool {
+	cat := graftCatalog()
+	if cat == nil {
+		return false
+	}
+	var arrs []Node
+	for _, n := range Walk(doc, "") {
+		if n.V.K == 'a' && len(cat[typedPtr(doc, n.Ptr)]) > 0 {
+			arrs = append(arrs, n)
+		}
+	}
+	if len(arrs) == 0 {
+		return false
+	}
+	n := arrs[int(i)%len(arrs)]
+	samples := cat[typedPtr(doc, n.Ptr)]
+	val, err := ParseJV([]byte(samples[int(j)%len(samples)]))
+	if err != nil {
+		return false
+	}
+	for _, e := range n.V.A {
+		if e != nil && e.K == 'o' {
+			c := e.Clone()
+			c.Del("uuid")
+			c.Del("i")
+			if c.Equal(val) {
+				return false // it is there already
+			}
+		}
+	}
+	n.V.A = append(n.V.A, val)
 	return true
 }
